@@ -149,6 +149,39 @@ func run(c *vh.Ctx) error {
 		}
 	}
 
+	// ---- import history / entry point independence ----------------------------------------------------------------------
+	for i, nH := 0, c.N(10, 60); i < nH; i++ {
+		p, lb := c.R.Range(0, 2), c.R.Range(1, 5)
+		if i == 0 {
+			p, lb = 1, 2
+		}
+		la := 17 - p + c.R.Range(0, 3) // crosses the period end at block 15
+		if c.Thorough() && i%3 == 0 {
+			lb = c.R.Range(6, 18)
+			la = 33 - p + c.R.Range(0, 3) // two period ends; B crosses one as well when longer than 15-p
+		}
+		line := fmt.Sprintf("H seed=%d prefix=%d a=%d b=%d", c.R.Intn(1000000), p, la, lb)
+		f, what, info, err := runHistory(line)
+		if err != nil {
+			return fmt.Errorf("scenario %q: %v", line, err)
+		}
+		if strings.HasPrefix(what, "void:") {
+			res.Dist("history-scenario-void")
+			continue
+		}
+		res.Count(line, info.periodEnds >= 1 && info.pendingInA1 >= 1)
+		res.DistN("history-import-histories", info.histories)
+		res.DistN("history-period-ends-in-fork", info.periodEnds)
+		res.DistN("history-txs-in-first-fork-block", info.pendingInA1)
+		if i == 0 {
+			res.Sample(map[string]interface{}{"history": line, "histories": []string{"main", "b-then-batch", "ucon-onecall", "ucon-stored", "zigzag"}})
+		}
+		if f {
+			rp := vh.WriteReplay(c.ReplayDir, "C06", fmt.Sprintf("history-%d", i), c.Seed, []string{"oracle: " + what}, []string{line})
+			res.Fail("oracle", "", what, rp)
+		}
+	}
+
 	// ---- core.GenerateChain path (no staking module) ------------------------------------------------------------------
 	for i, nG := 0, c.N(6, 40); i < nG; i++ {
 		line := fmt.Sprintf("G blocks=%d seed=%d", c.R.Range(3, 12), c.R.Intn(1000000))
@@ -326,6 +359,13 @@ func replay(c *vh.Ctx, body, comments []string) (bool, string) {
 	}
 	if strings.HasPrefix(body[0], "L ") {
 		return replayLean(c, body)
+	}
+	if strings.HasPrefix(body[0], "H ") {
+		f, what, _, err := runHistory(body[0])
+		if err != nil {
+			return false, "ill-formed H scenario: " + err.Error()
+		}
+		return f, what
 	}
 	if strings.HasPrefix(body[0], "G ") {
 		f, what, _, _, err := runGenChain(body[0])
